@@ -25,6 +25,9 @@ PAIRS = {'pubo_to_puso': ('PUBO', 'PUSO'), 'puso_to_pubo': ('PUSO', 'PUBO'),
 
 def rules(ctx):
     P, R = ctx.prog, ctx.res
+    from .C14 import derived_fields
+    ctx.rule('R04.10', "a field of model objects outside the frozen bookkeeping fields that is written together with the terms / a bookkeeping field is written by every other mutator of that state (no stale memo)", floor=1)
+    derived_fields(ctx, 'R04.10')
     ctx.rule('R04.1', "result type dispatch: BMatrix iff type(arg) == AMatrix, labelled B otherwise", floor=4)
     ctx.rule('R04.2', "literal correspondence tables are mutual inverses (0<->1, 1<->-1); is_solution_spin polarity; "
                       "decimal helpers compose the matching pair", floor=5)
